@@ -218,6 +218,8 @@ class AoefSim:
             )
             self.record(op, "ok", key=specs.spec_key(op["spec"]))
             self.trace.append(("world",))
+            for probe in specs.reach_probes(op["spec"]):
+                self.probes.hit(probe)
         elif kind == "save":
             self.do_save(op)
         elif kind == "resave":
@@ -1167,8 +1169,23 @@ ASSUMPTIONS = [
     "durable (soundevent never fsyncs and C01 promises no crash durability)",
     "AOEF 1.1.0 list and reference names are encoded in simlab/aoefdoc.py",
 ]
+SHAPE_PROBES = [
+    "shape:annotation-shared-by-two-parents",
+    "shape:parent-sequence-without-sound-events",
+    "shape:sequence-parent-depth>=2",
+    "shape:sound-event-of-another-recording",
+    "shape:sound-event-shared-annotation/prediction/sequence",
+    "shape:tag-only-in-evaluation-tags",
+    "shape:tag-only-in-prediction",
+    "shape:tag-only-in-project-tags",
+    "shape:time-expansion<1",
+    "shape:user-only-as-badge-owner",
+    "shape:user-only-as-note-author",
+    "shape:user-only-as-recording-owner",
+    "shape:geometry-none",
+] + [f"shape:geometry-{g}" for g in specs.GEOMETRY_KINDS]
 CORE_PROBES = {
-    "C01": [
+    "C01": SHAPE_PROBES + [
         "load:checked:other-node",
         "load:checked:same-node-after-restart",
         "load:checked:cycle>=2",
@@ -1182,7 +1199,7 @@ CORE_PROBES = {
     + [f"load:checked:{t}" for t in COLLECTION_TYPE.values()]
     + WRITE_FAULTS
     + READ_FAULTS,
-    "C02": ["C02:doc-with>=5-lists", "save:of-loaded-object",
+    "C02": SHAPE_PROBES + ["C02:doc-with>=5-lists", "save:of-loaded-object",
             "save:same-live-objects-again"]
     + [f"save:{t}" for t in COLLECTION_TYPE.values()],
     "C18": ["C18:relocated>=2-recordings", "C18:rejected-save-compared",
